@@ -1043,6 +1043,8 @@ class Project:
             elif error.errno == errno.ENOENT:
                 raise ValueError("Source job not initialized.")
             else:
+                # Do not leave an incomplete copy behind, it would look like a valid job.
+                shutil.rmtree(dst.path, ignore_errors=True)
                 raise
         return dst
 
